@@ -24,7 +24,7 @@ CLAUSES = {
 
 # deviation constants describing the current tree (kept in step with the code; a tree that
 # departs from them is still judged by the observer stage)
-TREE = {"SameIdRequestIsResponse": False}
+TREE = {"SameIdRequestIsResponse": False, "FifoWaiters": True}
 
 TRACE_CONSTS = {
     "Callers": {"a", "b", "c", "d"}, "P": 50, "Configs": set(), "Kinds": set(),
@@ -52,8 +52,9 @@ def model_check(ctx, cfg, expect=(), timeout=1500, module="MC_RequestWait"):
     ctx.add_model_run(cfg, r)
     viol = set(r.invariant_violated)
     cov = r.coverage()
-    for act in ("Start", "Recv", "PollTimeout", "Deadline", "Arrive", "Advance"):
-        if cov.get(act, (0, 0))[1] == 0 and not viol:
+    for act in ("Start", "EnterRecv", "Recv", "PollTimeout", "Deadline", "Arrive", "Advance"):
+        taken = max(cov.get(a, (0, 0))[1] for a in ((act, "ArriveKI", "ArriveMsg") if act == "Arrive" else (act,)))
+        if taken == 0 and not viol:
             raise Machinery("action %s never taken in %s (vacuous model run)" % (act, cfg))
     ctx.cov.setdefault("action_coverage", {})[cfg] = {k: v[1] for k, v in cov.items()}
     unexpected = viol - set(expect)
